@@ -445,8 +445,8 @@ DEEP_HISTORY_ZONES = ("Europe/London", "Pacific/Apia")
 
 def _deep_history_item(zid):
     """A single fresh cached zone is asked about the 16th day of every 32-day period from year 1 to year 9999 in ascending order
-    (about 114,000 distinct periods on one object - far beyond any cache capacity), then about every one of them once more; both answers
-    must be what the uncached zone says.  Reaches faults that need tens of thousands of cached periods on one object."""
+    (about 114,000 distinct periods on one object - far beyond any cache capacity), then about every one of them once more in DESCENDING
+    order (an ascending second round only ever asks about periods the cache has just dropped); both answers must be what the uncached zone says.  Reaches faults that need tens of thousands of cached periods on one object."""
     acc = Acc()
     zc = _Z(acc, zid)
     try:
@@ -461,7 +461,7 @@ def _deep_history_item(zid):
         want = {}
         with zw.cpu_limit(900):
             for rnd in (1, 2):
-                for pnum in range(p0, p1 + 1):
+                for pnum in (range(p0, p1 + 1) if rnd == 1 else range(p1, p0 - 1, -1)):
                     q = (pnum * CACHE_PERIOD_DAYS + 16) * DAY_NS
                     inst = zw.mk_instant(q)
                     if rnd == 1:
